@@ -175,6 +175,11 @@ func verifyExtraData(block *types.Block) error {
 
 // verifyMiner verify the miner slot of deputy node
 func verifyMiner(header *types.Header, parent *types.Header, mineTimeout uint64, dm *deputynode.Manager) error {
+	// header.Time comes from the network. GetCorrectMiner panics on a value that can not be a millisecond timestamp
+	if int64(header.Time)*1000 < 1e10 {
+		log.Error("Consensus verify fail: block time is invalid", "block.Height", header.Height, "block.Time", header.Time)
+		return ErrVerifyHeaderFailed
+	}
 	expectedMiner, err := GetCorrectMiner(parent, int64(header.Time)*1000, int64(mineTimeout), dm)
 	if err != nil {
 		log.Error("Consensus verify fail: can't find correct miner", "block.Height", header.Height, "parent.MinerAddress", parent.MinerAddress, "block.MinerAddress", header.MinerAddress, "err", err)
